@@ -1,4 +1,5 @@
 import ArrowModel.C13.Model
+import ArrowModel.C13.DType
 /-
 C13 — helper lemmas (columns, integer division and rounding, powers of ten, the decimal
 precision tables).
@@ -455,3 +456,142 @@ theorem parseInt_formatInt (lo hi x : Int) (hlo : lo ≤ 0) (hhi : 0 ≤ hi) (hx
     simp
 
 end ArrowModel.C13
+
+/-! ### DataType display → parse (token level) -/
+namespace ArrowModel.C13.DT
+
+/-- the recursive fragment for which display → parse is proved: primitive type names,
+decimals, dictionaries and the four list kinds (any nullability, any element field name) -/
+def Frag : DType → Prop
+  | .simple n => n ∈ simpleNames
+  | .decimal name p s => name ∈ decimalNames ∧ decimalOk name p s = true
+  | .dictionary k v => Frag k ∧ Frag v
+  | .list kind _ t _ => kind ∈ listKinds ∧ Frag t
+  | _ => False
+
+def fsize : DType → Nat
+  | .dictionary k v => fsize k + fsize v + 1
+  | .list _ _ t _ => fsize t + 1
+  | _ => 1
+
+def headWord : DType → String
+  | .simple n => n
+  | .decimal name _ _ => name
+  | .dictionary _ _ => "Dictionary"
+  | .list kind _ _ _ => kind
+  | _ => ""
+
+theorem toks_cons (t : DType) (h : Frag t) : ∃ r, toks t = .word (headWord t) :: r := by
+  cases t <;> simp [Frag] at h <;> simp [toks, headWord]
+
+theorem dec_branch : ∀ n ∈ decimalNames, n ∉ simpleNames ∧ n ≠ "Timestamp" ∧ n ≠ "Time32" ∧ n ≠ "Time64" ∧
+    n ≠ "Duration" ∧ n ≠ "Interval" ∧ n ≠ "FixedSizeBinary" ∧ n ≠ "non-null" ∧ n ≠ "nullable" := by decide
+theorem list_branch : ∀ n ∈ listKinds, n ∉ simpleNames ∧ n ≠ "Timestamp" ∧ n ≠ "Time32" ∧ n ≠ "Time64" ∧
+    n ≠ "Duration" ∧ n ≠ "Interval" ∧ n ≠ "FixedSizeBinary" ∧ n ∉ decimalNames ∧ n ≠ "Dictionary" ∧
+    n ≠ "non-null" ∧ n ≠ "nullable" := by decide
+theorem simple_branch : ∀ n ∈ simpleNames, n ≠ "non-null" ∧ n ≠ "nullable" := by decide
+theorem dict_branch : "Dictionary" ∉ simpleNames ∧ "Dictionary" ∉ decimalNames := by decide
+
+theorem headWord_ne (t : DType) (h : Frag t) : headWord t ≠ "non-null" ∧ headWord t ≠ "nullable" := by
+  cases t with
+  | simple n => exact simple_branch n h
+  | decimal name p s => have := dec_branch name h.1; exact ⟨this.2.2.2.2.2.2.2.1, this.2.2.2.2.2.2.2.2⟩
+  | dictionary k v => exact ⟨by simp only [headWord]; decide, by simp only [headWord]; decide⟩
+  | list kind nullable t fname => have := list_branch kind h.1; exact ⟨this.2.2.2.2.2.2.2.2.2.1, this.2.2.2.2.2.2.2.2.2.2⟩
+  | _ => simp [Frag] at h
+
+theorem optNullable_toks (b : Bool) (t : DType) (h : Frag t) (r : List Tok) :
+    optNullable (nn b ++ (toks t ++ r)) = (b, toks t ++ r) := by
+  obtain ⟨r', hw⟩ := toks_cons t h
+  obtain ⟨h1, h2⟩ := headWord_ne t h
+  cases b with
+  | false => simp [nn, optNullable]
+  | true =>
+    rw [hw]
+    simp only [nn, if_true, List.nil_append, List.cons_append]
+    unfold optNullable
+    split
+    · rename_i r0 he; injection he with he1 _; injection he1 with he2; exact absurd he2 h1
+    · rename_i r0 he; injection he with he1 _; injection he1 with he2; exact absurd he2 h2
+    · rfl
+
+theorem listFieldName_toks (fname : String) (r : List Tok) :
+    listFieldName ((if fname = "item" then [] else [Tok.comma, .word "field", .colon, .sq fname]) ++ (Tok.rp :: r))
+      = some (fname, Tok.rp :: r) := by
+  by_cases h : fname = "item"
+  · simp [h, listFieldName]
+  · simp [h, listFieldName]
+
+theorem parseType_toks : ∀ (t : DType) (_ : Frag t) (fuel : Nat) (_ : fsize t ≤ fuel) (rest : List Tok),
+    parseType fuel (toks t ++ rest) = some (t, rest)
+  | .simple n, h, fuel, hf, rest => by
+    obtain ⟨f, rfl⟩ : ∃ f, fuel = f + 1 := ⟨fuel - 1, by simp [fsize] at hf; omega⟩
+    simp only [Frag] at h
+    simp [toks, parseType, h]
+  | .decimal name p s, h, fuel, hf, rest => by
+    obtain ⟨f, rfl⟩ : ∃ f, fuel = f + 1 := ⟨fuel - 1, by simp [fsize] at hf; omega⟩
+    simp only [Frag] at h
+    obtain ⟨b1, b2, b3, b4, b5, b6, b7, _, _⟩ := dec_branch name h.1
+    simp [toks, parseType, b1, b2, b3, b4, b5, b6, b7, h.1, h.2]
+  | .dictionary k v, h, fuel, hf, rest => by
+    obtain ⟨f, rfl⟩ : ∃ f, fuel = f + 1 := ⟨fuel - 1, by simp [fsize] at hf; omega⟩
+    simp only [Frag] at h
+    simp only [fsize] at hf
+    have ik := parseType_toks k h.1 f (by omega) (Tok.comma :: (toks v ++ (Tok.rp :: rest)))
+    have iv := parseType_toks v h.2 f (by omega) (Tok.rp :: rest)
+    have e : toks (.dictionary k v) ++ rest = .word "Dictionary" :: .lp :: (toks k ++ (Tok.comma :: (toks v ++ (Tok.rp :: rest)))) := by
+      simp [toks]
+    rw [e]
+    simp [parseType, dict_branch.1, dict_branch.2, ik, iv]
+  | .list kind nullable t fname, h, fuel, hf, rest => by
+    obtain ⟨f, rfl⟩ : ∃ f, fuel = f + 1 := ⟨fuel - 1, by simp [fsize] at hf; omega⟩
+    simp only [Frag] at h
+    simp only [fsize] at hf
+    obtain ⟨b1, b2, b3, b4, b5, b6, b7, b8, b9, _, _⟩ := list_branch kind h.1
+    have it := parseType_toks t h.2 f (by omega)
+      ((if fname = "item" then [] else [Tok.comma, .word "field", .colon, .sq fname]) ++ (Tok.rp :: rest))
+    have e : toks (.list kind nullable t fname) ++ rest = .word kind :: .lp :: (nn nullable ++ (toks t ++
+        ((if fname = "item" then [] else [Tok.comma, .word "field", .colon, .sq fname]) ++ (Tok.rp :: rest)))) := by
+      simp [toks]
+    rw [e]
+    simp [parseType, b1, b2, b3, b4, b5, b6, b7, b8, b9, h.1, optNullable_toks nullable t h.2, it, listFieldName_toks]
+  | .timestamp _ _, h, _, _, _ => by simp [Frag] at h
+  | .time32 _, h, _, _, _ => by simp [Frag] at h
+  | .time64 _, h, _, _, _ => by simp [Frag] at h
+  | .duration _, h, _, _, _ => by simp [Frag] at h
+  | .interval _, h, _, _, _ => by simp [Frag] at h
+  | .fixedSizeBinary _, h, _, _, _ => by simp [Frag] at h
+  | .fixedSizeList _ _ _ _, h, _, _, _ => by simp [Frag] at h
+  | .struct _, h, _, _, _ => by simp [Frag] at h
+  | .map _ _ _ _, h, _, _, _ => by simp [Frag] at h
+  | .runEndEncoded _ _ _ _ _ _, h, _, _, _ => by simp [Frag] at h
+  | .union _ _, h, _, _, _ => by simp [Frag] at h
+
+theorem fsize_le_length : ∀ (t : DType) (_ : Frag t), fsize t ≤ (toks t).length
+  | .simple n, _ => by simp [fsize, toks]
+  | .decimal _ _ _, _ => by simp [fsize, toks]
+  | .dictionary k v, h => by
+    have := fsize_le_length k h.1; have := fsize_le_length v h.2
+    simp [fsize, toks]; omega
+  | .list kind nullable t fname, h => by
+    have := fsize_le_length t h.2
+    simp [fsize, toks]; omega
+  | .timestamp _ _, h => by simp [Frag] at h
+  | .time32 _, h => by simp [Frag] at h
+  | .time64 _, h => by simp [Frag] at h
+  | .duration _, h => by simp [Frag] at h
+  | .interval _, h => by simp [Frag] at h
+  | .fixedSizeBinary _, h => by simp [Frag] at h
+  | .fixedSizeList _ _ _ _, h => by simp [Frag] at h
+  | .struct _, h => by simp [Frag] at h
+  | .map _ _ _ _, h => by simp [Frag] at h
+  | .runEndEncoded _ _ _ _ _ _, h => by simp [Frag] at h
+  | .union _ _, h => by simp [Frag] at h
+
+theorem parse_toks (t : DType) (h : Frag t) : parse (toks t) = some t := by
+  unfold parse
+  have := parseType_toks t h ((toks t).length + 1) (by have := fsize_le_length t h; omega) []
+  rw [List.append_nil] at this
+  rw [this]
+
+end ArrowModel.C13.DT
